@@ -376,3 +376,52 @@ def compare_stage(run, name, cases, model_obs, impl_obs, nontrivial_fn=None, exh
         if idx < len(cases):
             run.coverage['samples'].append({'stream': name, 'case': cases[idx][:400], 'observation': impl_obs[idx][:400]})
     return nbad == 0
+
+
+def simple_replay(pid, family, path, keep_empty=True, args=()):
+    """Re-runs the `case` lines of a replay file through implementation and model."""
+    import shutil as _sh
+    lines = [l[5:] for l in read_lines(path) if l.startswith('case ')]
+    tmp = scratch_dir(pid.lower() + 'r')
+    try:
+        write_lines(tmp + '/c', lines)
+        run_model(family, tmp + '/c', tmp + '/m')
+        run_impl(family, tmp + '/c', tmp + '/i', args=args)
+        rd = read_lines_keep if keep_empty else read_lines
+        rc = 0
+        for c, m, i in zip(lines, rd(tmp + '/m'), rd(tmp + '/i')):
+            print('case ', c[:3000], '\n impl :', i[:3000], '\n model:', m[:3000])
+            if m != i:
+                rc = 1
+        if rc:
+            print('VIOLATION property=%s replay=%s' % (pid, path))
+        return rc
+    finally:
+        _sh.rmtree(tmp, ignore_errors=True)
+
+
+def simple_family_check(run, family, stream, cases, nontrivial_fn, rule, args=(), keep_empty=True, timeout=1800, env=None):
+    """Runs one family on both sides and compares line by line."""
+    import shutil as _sh
+    tmp = scratch_dir(family)
+    try:
+        cp = tmp + '/c'
+        write_lines(cp, cases)
+        okm, lm = run_model(family, cp, tmp + '/m', timeout=timeout)
+        rc, li = run_impl(family, cp, tmp + '/i', args=args, timeout=timeout, env=env)
+        if not okm or rc != 0:
+            run.add_violation('harness-error', '%s: model ok=%s impl rc=%s %s %s' % (family, okm, rc, lm[-300:], li[-2500:]), [li[-3000:]], no_input=True)
+            return None
+        rd = read_lines_keep if keep_empty else read_lines
+        mo, io = rd(tmp + '/m'), rd(tmp + '/i')
+        if keep_empty:
+            mo, io = mo[:len(cases)], io[:len(cases)]
+        compare_stage(run, stream, cases, mo, io, nontrivial_fn=nontrivial_fn, rule=rule)
+        return mo, io
+    finally:
+        _sh.rmtree(tmp, ignore_errors=True)
+
+
+def corpus(pid):
+    p = '%s/corpus/%s/cases.txt' % (VERIF, pid)
+    return read_lines(p) if os.path.exists(p) else []
